@@ -242,7 +242,7 @@ def worklist_part(ctx, cases):
             body += "Eval vm_compute in (universe_closedb (polar_step cm0 fp0 T0) (reduced_universe T0), prod_sizes T0).\n"
         files.append((f"wl_{j}", body))
         kept.append((text, m, pm, symbols, allfin))
-    outs = lib.coq_run_many(ctx, files, timeout=240)
+    outs = lib.coq_run_many(ctx, files, timeout=ctx.pick(75, 300))
     agree = 0
     n_fin = 0
     for (name, _), (text, m, pm, symbols, allfin) in zip(files, kept):
@@ -528,8 +528,9 @@ def run(ctx):
         graph_part(ctx, ctx.pick(60, 600))
     timing["graphs"] = round(time.time() - t_, 1)
     t_ = time.time()
-    fin = [c for sh, c in wl_cases if sh == "all-finite"][:ctx.pick(6, 40)]
-    oth = [c for sh, c in wl_cases if sh != "all-finite"]
+    small = lambda c: len(c[1]["body"]) <= ctx.pick(7, 10)       # Coq's list-based polynomial arithmetic is slow on long bodies
+    fin = [c for sh, c in wl_cases if sh == "all-finite" and small(c)][:ctx.pick(5, 40)]
+    oth = [c for sh, c in wl_cases if sh != "all-finite" and len(c[1]["body"]) <= 12]
     rng.shuffle(oth)
     worklist_part(ctx, fin + oth[:ctx.pick(14, 100)])
     timing["worklist"] = round(time.time() - t_, 1)
